@@ -341,11 +341,22 @@ impl<F: Float> GaussianMixtureModel<F> {
         observations: &ArrayBase<D, Ix2>,
     ) -> (Array1<F>, Array2<F>) {
         let weighted_log_prob = self.estimate_weighted_log_prob(observations);
-        let log_prob_norm = weighted_log_prob
-            .mapv(|x| x.exp())
-            .sum_axis(Axis(1))
-            .mapv(|x| x.ln());
-        let log_resp = weighted_log_prob - log_prob_norm.to_owned().insert_axis(Axis(1));
+        // log-sum-exp shifted by the row maximum: far from every component all the `exp` would
+        // otherwise underflow to zero and the responsibilities become inf
+        let row_max = weighted_log_prob.map_axis(Axis(1), |row| {
+            let m = row.fold(F::neg_infinity(), |a, &b| a.max(b));
+            if m.is_finite() {
+                m
+            } else {
+                F::zero()
+            }
+        });
+        let shifted = weighted_log_prob - row_max.view().insert_axis(Axis(1));
+        let log_sum = shifted.mapv(|x| x.exp()).sum_axis(Axis(1)).mapv(|x| x.ln());
+        // normalise the shifted values: adding the maximum back first would round the
+        // normaliser to the (coarse) precision of the maximum
+        let log_resp = shifted - log_sum.view().insert_axis(Axis(1));
+        let log_prob_norm = log_sum + row_max;
         (log_prob_norm, log_resp)
     }
 
